@@ -192,6 +192,8 @@ impl PatchChain {
                             match PatchFile::parse(&patch_data) {
                                 Ok(patch) => patches.push((idx, patch)),
                                 Err(e) => {
+                                    // A patch that cannot be applied must not be skipped:
+                                    // the content below it is not what this entry declares
                                     log::warn!(
                                         "Failed to parse patch file '{}' in archive {} (priority {}): {}",
                                         filename,
@@ -199,6 +201,7 @@ impl PatchChain {
                                         entry.priority,
                                         e
                                     );
+                                    return Err(e);
                                 }
                             }
                         }
@@ -210,6 +213,7 @@ impl PatchChain {
                                 entry.priority,
                                 e
                             );
+                            return Err(e);
                         }
                     }
                 } else if base_data.is_none() {
